@@ -21,6 +21,11 @@
 // panicking readers, cancelled contexts) followed by healthy ones, sequentially on one P,
 // unpinned and concurrently; every healthy answer against the independent recomputation and
 // against a fresh process.
+// Section U (unicode.go): the UNICODE family of paths - every Unicode spelling class (NFC / NFD /
+// NFKC / NFKD variants, combining marks in non-canonical order, Hangul syllables vs jamo,
+// singleton and compatibility characters, zero-width and bidi characters, case-folding pairs,
+// astral characters, INVALID UTF-8, very long paths) in every position: a path is a byte string
+// and is hashed, sorted, stored and parsed back LITERALLY.
 //
 // The Lean model receives the hash as a table computed here with golang.org/x/crypto/sha3.
 // The oracle (implementation only) recomputes every b5 digest from the published
@@ -250,10 +255,15 @@ func classify(err error) string {
 // generators
 // ---------------------------------------------------------------------------------------
 
-var dirAtoms = []string{"a", "b", "c.d", "x y", "x  y", "é", "日本", ".hidden", "...", "a..", " lead", "trail ", "  ", "v1", "a.proto", "buf.md", "LICENSE", "p q  r"}
-var stemAtoms = []string{"a", "b", "foo", "x y", "x  y", "a  b  c", "é", "日本語", ".", "..", "a.b", " ", "  ", "trail  ", "  lead", "Ω ω"}
+var dirAtoms = []string{"a", "b", "c.d", "x y", "x  y", "é", "日本", ".hidden", "...", "a..", " lead", "trail ", "  ", "v1", "a.proto", "buf.md", "LICENSE", "p q  r",
+	// spellings that are NOT in Unicode normalisation form C / KC (a path is a byte string: no form is preferred)
+	"e\u0301", "\u1100\u1161", "\u212b", "a\u0301\u0323", "\ufb01", "z\u200d"}
+var stemAtoms = []string{"a", "b", "foo", "x y", "x  y", "a  b  c", "é", "日本語", ".", "..", "a.b", " ", "  ", "trail  ", "  lead", "Ω ω",
+	"e\u0301", "\u00e9", "\u1112\u1161\u11ab", "\u2126", "q\u0307\u0323", "\uff21", "a\u200cb", "\u202ea", "\U00010000"}
 var extAtoms = []string{".proto", ".proto", ".proto", ".proto", ".txt", "", ".proto.bak", ".PROTO", ".protoo", ".md", ".yaml", ".proto "}
-var specialFiles = []string{"LICENSE", "buf.md", "README.md", "README.markdown", "buf.yaml", "buf.lock", "LICENSE.md", "license", ".proto", "d/.proto", "d/LICENSE", "d/buf.md", "d/README.md", "a.proto/b.txt", "buf.md/x.proto", "README.md/y.proto", "LICENSE/z.proto", "readme.md", "BUF.md"}
+var specialFiles = []string{"LICENSE", "buf.md", "README.md", "README.markdown", "buf.yaml", "buf.lock", "LICENSE.md", "license", ".proto", "d/.proto", "d/LICENSE", "d/buf.md", "d/README.md", "a.proto/b.txt", "buf.md/x.proto", "README.md/y.proto", "LICENSE/z.proto", "readme.md", "BUF.md",
+	// look-alikes of the license / documentation names: NOT module files
+	"LICENSE\u200b", "\uff2c\uff29\uff23\uff25\uff2e\uff33\uff25", "\uff32\uff25\uff21\uff24\uff2d\uff25.md", "buf.md\ufeff", "L\u0131CENSE"}
 
 func genPath(r *hx.Rand) string {
 	if r.Chance(2, 5) {
@@ -615,6 +625,21 @@ func manifestCase(run *hx.Run, idx int, specs []nodeSpec, kind string) {
 		parts[i] = hx.Enc(s.Path) + "=" + hex.EncodeToString(s.Digest)
 	}
 	line := "man\t" + encList(parts)
+	// the model's strings are code point sequences: a case with invalid UTF-8 in a path is oracle-only
+	modelable := true
+	for _, s := range specs {
+		if !utf8.ValidString(s.Path) {
+			modelable = false
+		}
+	}
+	emit := func(out string, nontrivial bool) {
+		if modelable {
+			run.Case(line, out, nontrivial)
+		} else {
+			run.Eval()
+			run.Count("man:oracle-only-invalid-utf8")
+		}
+	}
 	var nodes []bufcas.FileNode
 	var paths []string
 	for _, s := range specs {
@@ -622,24 +647,27 @@ func manifestCase(run *hx.Run, idx int, specs []nodeSpec, kind string) {
 		must(err)
 		n, err := bufcas.NewFileNode(s.Path, d)
 		if err != nil {
-			run.Case(line, classify(err), false)
+			emit(classify(err), false)
 			run.Count("man:" + classify(err))
 			return
+		}
+		if n.Path() != s.Path {
+			failure(run, hx.OracleFailure{Class: "filenode-path-altered", What: fmt.Sprintf("NewFileNode(%q).Path() = %q: the path is not the literal byte string given", s.Path, n.Path()), Input: map[string]any{"path": strconv.Quote(s.Path), "path_hex": hx.Enc(s.Path), "returned": strconv.Quote(n.Path()), "returned_hex": hx.Enc(n.Path())}, Replay: failReplay(run, idx)})
 		}
 		nodes = append(nodes, n)
 		paths = append(paths, s.Path)
 	}
 	m, err := bufcas.NewManifest(nodes)
 	if err != nil {
-		run.Case(line, classify(err), false)
+		emit(classify(err), false)
 		run.Count("man:" + classify(err))
 		return
 	}
 	text := m.String()
-	run.Case(line, "ok "+hx.Enc(text), len(specs) >= 2)
+	emit("ok "+hx.Enc(text), len(specs) >= 2)
 	run.Count("man:ok:" + kind)
 	run.Count("man:nodes=" + strconv.Itoa(len(specs)))
-	input := map[string]any{"paths": paths, "manifest_text": text}
+	input := map[string]any{"paths": quoteAll(paths), "manifest_text": strconv.Quote(text)}
 	// oracle 1: canonical text = path-sorted "shake256:<hex>  <path>\n" lines
 	sorted := append([]nodeSpec(nil), specs...)
 	sort.Slice(sorted, func(i, j int) bool { return sorted[i].Path < sorted[j].Path })
@@ -648,7 +676,35 @@ func manifestCase(run *hx.Run, idx int, specs []nodeSpec, kind string) {
 		want.WriteString("shake256:" + hex.EncodeToString(s.Digest) + "  " + s.Path + "\n")
 	}
 	if text != want.String() {
-		failure(run, hx.OracleFailure{Class: "manifest-not-canonical", What: "Manifest.String() is not the path-sorted list of `digest  path` lines", Input: input, Replay: failReplay(run, idx)})
+		failure(run, hx.OracleFailure{Class: "manifest-not-canonical", What: "Manifest.String() is not the list of `digest  path` lines sorted by the bytes of the literal paths", Input: input, Replay: failReplay(run, idx)})
+	}
+	// oracle 1b: FileNodes() are the literal paths in byte order; lookup is by the literal path
+	if fn := m.FileNodes(); len(fn) == len(sorted) {
+		got := make([]string, len(fn))
+		for i, n := range fn {
+			got[i] = n.Path()
+		}
+		sort.Strings(got)
+		orderOnly := true // the literal paths are all there, in another order
+		for i := range got {
+			if got[i] != sorted[i].Path {
+				orderOnly = false
+			}
+		}
+		for i, n := range fn {
+			if n.Path() != sorted[i].Path && orderOnly {
+				failure(run, hx.OracleFailure{Class: "manifest-not-canonical", What: fmt.Sprintf("Manifest.FileNodes()[%d].Path() = %q: the nodes are not in the byte order of their literal paths (expected %q there)", i, n.Path(), sorted[i].Path), Input: input, Replay: failReplay(run, idx)})
+				break
+			}
+			if n.Path() != sorted[i].Path {
+				failure(run, hx.OracleFailure{Class: "filenode-path-altered", What: fmt.Sprintf("Manifest.FileNodes()[%d].Path() = %q, the literal path in byte order is %q", i, n.Path(), sorted[i].Path), Input: input, Replay: failReplay(run, idx)})
+				break
+			}
+			if g := m.GetFileNode(sorted[i].Path); g == nil || g.Path() != sorted[i].Path {
+				failure(run, hx.OracleFailure{Class: "filenode-path-altered", What: fmt.Sprintf("Manifest.GetFileNode(%q) does not find the node stored under that literal path", sorted[i].Path), Input: input, Replay: failReplay(run, idx)})
+				break
+			}
+		}
 	}
 	// oracle 2: the canonical text parses back to an equal manifest
 	cls := manifestRoundTripClass(paths)
@@ -671,6 +727,14 @@ func manifestCase(run *hx.Run, idx int, specs []nodeSpec, kind string) {
 		run.Count("man:roundtrip-differs:" + cls)
 		failure(run, hx.OracleFailure{Class: cls, What: fmt.Sprintf("ParseManifest(m.String()) yields a different manifest for paths %q", paths), Input: input, Replay: failReplay(run, idx)})
 	}
+}
+
+func quoteAll(xs []string) []string {
+	out := make([]string, len(xs))
+	for i, x := range xs {
+		out[i] = strconv.Quote(x) // JSON would silently replace invalid UTF-8
+	}
+	return out
 }
 
 func genNodeSpecs(r *hx.Rand) ([]nodeSpec, string) {
@@ -1274,6 +1338,11 @@ type gmod struct {
 type lfPlant struct {
 	mod  int // taken modulo the number of modules
 	path string
+	// plain: the planted path has NO line feed (Section U: a Unicode spelling) - the file is just one
+	// more file of that module and every module keeps its published digest
+	plain bool
+	// noModel: no protocol lines (a path with invalid UTF-8 cannot be carried by the model's strings)
+	noModel bool
 }
 
 func msetCase(run *hx.Run, idx int, r *hx.Rand, lf *lfPlant) {
@@ -1285,6 +1354,13 @@ func msetCase(run *hx.Run, idx int, r *hx.Rand, lf *lfPlant) {
 	n := 2 + r.Intn(4)
 	mods := make([]gmod, n)
 	vendorsWKT := r.Chance(1, 3)
+	emit := func(line, out string, nontrivial bool) {
+		if lf != nil && lf.noModel {
+			run.Eval()
+			return
+		}
+		run.Case(line, out, nontrivial)
+	}
 	for i := range mods {
 		m := &mods[i]
 		m.local = i == n-1 || r.Chance(3, 4)
@@ -1348,7 +1424,14 @@ func msetCase(run *hx.Run, idx int, r *hx.Rand, lf *lfPlant) {
 	// neither has any local module that (transitively) depends on it
 	noDigest := make([]bool, n)
 	lfMod, lfIsModuleFile := -1, false
-	if lf != nil {
+	if lf != nil && lf.plain {
+		k := lf.mod % n
+		if !inDirPrefix(mods[k].files, lf.path) {
+			mods[k].files = append(mods[k].files, file{lf.path, protoText(r, "uni", nil)})
+			run.Count(fmt.Sprintf("uni:mset:module-file=%v:local=%v", inFiles(oracleModuleFiles(mods[k].files), lf.path), mods[k].local))
+		}
+	}
+	if lf != nil && !lf.plain {
 		lfMod = lf.mod % n
 		lfFile := file{lf.path, protoText(r, "lf", nil)}
 		lfIsModuleFile = inFiles(oracleModuleFiles(append(cloneFiles(mods[lfMod].files), lfFile)), lf.path)
@@ -1455,7 +1538,7 @@ func msetCase(run *hx.Run, idx int, r *hx.Rand, lf *lfPlant) {
 		}
 		line := "mset\t" + t.enc() + "\t" + strings.Join(parts, "|") + "\t" + strconv.Itoa(i)
 		if mod == nil {
-			run.Case(line, "err other", true)
+			emit(line, "err other", true)
 			continue
 		}
 		d, err := mod.Digest(bufmodule.DigestTypeB5)
@@ -1465,7 +1548,7 @@ func msetCase(run *hx.Run, idx int, r *hx.Rand, lf *lfPlant) {
 			if errors.As(err, &mm) && mm.ActualDigest != nil {
 				got = mm.ActualDigest.String()
 			} else {
-				run.Case(line, classify(err), true)
+				emit(line, classify(err), true)
 				if noDigest[i] {
 					run.Count("lf:mset:" + classify(err))
 					if classify(err) != "err path-line-feed" {
@@ -1480,11 +1563,11 @@ func msetCase(run *hx.Run, idx int, r *hx.Rand, lf *lfPlant) {
 			got = d.String()
 		}
 		if noDigest[i] {
-			run.Case(line, "ok "+got, true)
+			emit(line, "ok "+got, true)
 			failure(run, hx.OracleFailure{Class: "line-feed-path-digested", What: fmt.Sprintf("module %d of a module set has the b5 digest %s although a module file of it or of one of its dependencies (module %d, %q) has U+000A in its path", i, got, lfMod, lf.path), Input: map[string]any{"modules": parts, "closure": closure}, Replay: failReplay(run, idx)})
 			continue
 		}
-		run.Case(line, "ok "+got, len(closure[i]) > 0 || len(m.pinned) > 0)
+		emit(line, "ok "+got, len(closure[i]) > 0 || len(m.pinned) > 0)
 		run.Count(fmt.Sprintf("mset:local=%v:deps=%d", m.local, len(closure[i])+len(m.pinned)))
 		if got != want[i] {
 			failure(run, hx.OracleFailure{Class: "b5-construction-module-set", What: fmt.Sprintf("module %d of a module set: Digest(b5)=%s, published construction over its files and the digests of its resolved dependencies gives %s", i, got, want[i]), Input: map[string]any{"modules": parts, "closure": closure}, Replay: failReplay(run, idx)})
@@ -1858,7 +1941,7 @@ func main() {
 	}
 	run := hx.Start("C08")
 	r := hx.NewRand(run.Seed)
-	// C08_SECTIONS=H (any subset of WMDGNH) runs only those sections; case indices do not change
+	// C08_SECTIONS=H (any subset of WMDGNHU) runs only those sections; case indices do not change
 	secs := os.Getenv("C08_SECTIONS")
 	on := func(c byte) bool { return secs == "" || strings.IndexByte(secs, c) >= 0 }
 	tmp := filepath.Join(run.OutDir, "disk")
@@ -1965,6 +2048,11 @@ func main() {
 	// Section H (history independence; own generator stream r.Fork(6), after every other section)
 	if on('H') {
 		idx = sectionH(run, r.Fork(6), idx)
+	}
+	// Section U (the Unicode family of paths; own generator stream r.Fork(8); case indices start at
+	// uBase whatever the other sections did, so that `--only` works with any C08_SECTIONS)
+	if on('U') {
+		sectionU(run, r.Fork(8), tmp)
 	}
 	run.Finish()
 }
